@@ -383,7 +383,7 @@ pub fn record(mode: &str, seed: u64, n: usize, out: &mut Out) {
                 let cap = if i % 5 == 0 { Some(65551 + r.below(100) as usize) } else if i % 5 == 1 && maxdecl < 400 { Some(maxdecl + r.below(40) as usize) } else { None };
                 out.calls += 3;
                 let e = reader_event(&data, sh, &sched, mode == "async", cap, cfg.as_ref());
-                let nsrc = e["log"].as_array().unwrap().iter().filter(|x| x["t"] == "src").count();
+                let nsrc = e["log"].as_array().map(|l| l.iter().filter(|x| x["t"] == "src").count()).unwrap_or(0);
                 out.emit(e, nsrc >= 2);
             }
             // every hostile piece of one base message as the head of its own stream (a session ends at the first error, so a piece
